@@ -179,15 +179,16 @@ theorem lookupC_rows_other (k : Key) (cols : List Col) (e : List (Key × Name ×
     lookupC (textRows k cols ++ e) k' c = lookupC e k' c :=
   lookupC_append_other _ _ _ _ (fun r hr hh => h (by rw [← hh.1]; exact (textRows_key k cols r hr)))
 
-theorem inv_createTable (w : World) (k : Key) (cols : List Col) (comment : Option Nat) (rep : Bool) (hinv : Inv w)
-    (hreg : region w (.createTable k cols comment rep) = none) : Inv (step w (.createTable k cols comment rep)).2 := by
+theorem inv_createTable (w : World) (k : Key) (cols : List Col) (comment : Option Nat) (rep : Bool) (pk : Option Name)
+    (hinv : Inv w) (hreg : region w (.createTable k cols comment rep pk) = none) :
+    Inv (step w (.createTable k cols comment rep pk)).2 := by
   simp only [step]
   split
   · exact hinv
   · rename_i hcond
     simp only [Bool.or_eq_true, Bool.not_eq_true', not_or, Bool.not_eq_true, Bool.not_eq_false] at hcond
     have hd : (cols.map (·.name)).Nodup := by
-      have := hcond.1.2; simpa [distinctNames] using this
+      have := hcond.1.1.2; simpa [distinctNames] using this
     apply inv_replace w k _ _ _ hinv rfl
     · constructor
       · cases comment with
@@ -208,7 +209,7 @@ theorem inv_createTable (w : World) (k : Key) (cols : List Col) (comment : Optio
 /-- CTAS / CLONE / CREATE VIEW outside their regions: no text column, no comment, no stale comment row -/
 theorem inv_copy (w : World) (k : Key) (isView : Bool) (cols : List Col) (comment : Option Nat) (hinv : Inv w)
     (hnt : hasText cols = false) (hc : comment = none) (hstale : lookupT w.tExt k = none) :
-    Inv ⟨w.remove k ++ [⟨k, isView, cols, comment⟩], w.tExt, w.cExt⟩ := by
+    Inv ⟨w.remove k ++ [⟨k, isView, cols, comment, none⟩], w.tExt, w.cExt⟩ := by
   apply inv_replace w k _ _ _ hinv rfl
   · refine ⟨by simp [hstale, hc], fun c hcm n hn => absurd hn (no_text_ok hnt c hcm n)⟩
   · intro _ _; rfl
@@ -488,7 +489,7 @@ theorem inv_setComment (w : World) (k : Key) (c : Nat) (hinv : Inv w)
 /-- **the invariant is preserved by every statement outside the finding regions** -/
 theorem step_inv (w : World) (op : Op) (hinv : Inv w) (hreg : region w op = none) : Inv (step w op).2 := by
   cases op with
-  | createTable k cols comment rep => exact inv_createTable w k cols comment rep hinv hreg
+  | createTable k cols comment rep pk => exact inv_createTable w k cols comment rep pk hinv hreg
   | ctas k src sel rep => exact inv_ctas w k src sel rep hinv hreg
   | clone k src rep => exact inv_clone w k src rep hinv hreg
   | createView k src sel rep => exact inv_createView w k src sel rep hinv hreg
